@@ -14,6 +14,8 @@ The way of the `dtype` argument of `Block.create_data_array` down to h5py, over 
   h5InitDtype       `H5DataSet.__init__`: the statement(s) that rebind `dtype` before `require_dataset`, compiled:
                     `if dtype == DataType.String: dtype = util.vlen_str_dtype`
   h5InitCreateArgs  the keyword arguments of `require_dataset`
+  h5DtypeGetter     `H5DataSet.dtype`; dsGetDtype / dsDataType / daDtype: `DataSet._get_dtype`, `DataSet.data_type`,
+                    `DataArray.dtype` (what the array reports as its element type)
 
 `ast` only; anything else raises ExtractError (a broken tie).
 """
@@ -193,6 +195,30 @@ def extract(repo):
                     lean_str(member))
     init_term = "\n  ".join(lets + [term])
 
+    # the getters that report the element type
+    ds = _cls(_parse(repo, "nixio/data_set.py"), "DataSet", "nixio/data_set.py")
+    g = [_u(x) for x in _body(_fn(h5d, "dtype", "getter"))]
+    if not (len(g) == 3 and g[0] == "dtype = self.dataset.dtype" and g[2] == "return dtype"):
+        raise ExtractError("H5DataSet.dtype: unexpected body `%s`" % "; ".join(g)[:100])
+    st = _body(_fn(h5d, "dtype", "getter"))[1]
+    if not (isinstance(st, ast.If) and not st.orelse and _u(st.test) == "dtype == util.vlen_str_dtype"
+            and len(st.body) == 1 and isinstance(st.body[0], ast.Return)
+            and isinstance(st.body[0].value, ast.Attribute) and _u(st.body[0].value.value) == "DataType"):
+        raise ExtractError("H5DataSet.dtype: unexpected statement `%s`" % _u(st)[:100])
+    getter_member = st.body[0].value.attr
+    g = [_u(x) for x in _body(_fn(ds, "_get_dtype"))]
+    if g != ["dataset = self._h5group.get_dataset('data')", "return dataset.dtype"]:
+        raise ExtractError("DataSet._get_dtype: unexpected body `%s`" % "; ".join(g)[:100])
+    g = [_u(x) for x in _body(_fn(ds, "data_type", "getter"))]
+    if g != ["return self._get_dtype()"]:
+        raise ExtractError("DataSet.data_type: unexpected body `%s`" % "; ".join(g)[:100])
+    g = [_u(x) for x in _body(_fn(ds, "dtype", "getter"))]
+    if g != ["return np.dtype(self._get_dtype())"]:
+        raise ExtractError("DataSet.dtype: unexpected body `%s`" % "; ".join(g)[:100])
+    g = [_u(x) for x in _body(_fn(da, "dtype", "getter"))]
+    if g != ["return self._h5group.group['data'].dtype"]:
+        raise ExtractError("DataArray.dtype: unexpected body `%s`" % "; ".join(g)[:100])
+
     L = []
     L.append("-- generated by harness/extract/datasetdtype.py from nixio/datatype.py, nixio/block.py, nixio/data_array.py, "
              "nixio/hdf5/h5group.py, nixio/hdf5/h5dataset.py — do not edit")
@@ -219,6 +245,21 @@ def extract(repo):
     L.append("")
     L.append("/-- `H5DataSet.__init__`: the keyword arguments of `require_dataset` -/")
     L.append("def h5InitCreateArgs : List String :=\n  %s" % _strs(kwargs))
+    L.append("")
+    L.append("/-- `H5DataSet.dtype` (getter) on h5py's `self.dataset.dtype` -/")
+    L.append("def h5DtypeGetter (stored : DtypeVal) : DtypeVal :=\n  let dtype := stored\n"
+             "  if DtypeVal.isVlenStr dtype then DtypeVal.spelled (Spelling.nix %s) else\n  dtype" %
+             lean_str(getter_member))
+    L.append("")
+    L.append("/-- `DataSet._get_dtype`: `dataset = self._h5group.get_dataset('data'); return dataset.dtype` -/")
+    L.append("def dsGetDtype (stored : DtypeVal) : DtypeVal :=\n  h5DtypeGetter stored")
+    L.append("")
+    L.append("/-- `DataSet.data_type` (= `DataArray.data_type`): `return self._get_dtype()` -/")
+    L.append("def dsDataType (stored : DtypeVal) : DtypeVal :=\n  dsGetDtype stored")
+    L.append("")
+    L.append("/-- `DataArray.dtype` (overrides `DataSet.dtype` = `np.dtype(self._get_dtype())`): "
+             "`return self._h5group.group['data'].dtype` -/")
+    L.append("def daDtype (stored : DtypeVal) : DtypeVal :=\n  stored")
     L.append("")
     L.append("end Nix.Gen.DataSetDType")
     return {TARGET: "\n".join(L) + "\n"}
